@@ -160,9 +160,17 @@ class SolveGroupSwizzlerPartsel(object):
             print("range_l: %d (%s)" % (len(range_l), str(range_l)))
         if len(range_l) > 1:
             # If we have a multi-part domain, select from one 
-            # of the slices
-            range_idx = self.randstate.randint(0, len(range_l)-1)
-            t_range = range_l[range_idx]
+            # of the slices. Each slice is selected in proportion to 
+            # the number of values it holds, such that every value of
+            # the domain is equally likely to be targeted
+            total = 0
+            for r in range_l:
+                total += int(r[1]) - int(r[0]) + 1
+            sel = self.randstate.randint(0, total-1)
+            for t_range in range_l:
+                sel -= int(t_range[1]) - int(t_range[0]) + 1
+                if sel < 0:
+                    break
         else:
             # Otherwise, if our domain is a single range, select
             # an appropriate value and slice it into selections
